@@ -307,10 +307,17 @@ def run(pid, tier):
     }
     assume = ["process parameter of the parameterised space indexes the process list directly (as implemented; the class docstring's '0=None' for processes contradicts its own nvec)",
               "when several exploits share a (service, OS) pair any of them is accepted as the decoding of that pair"]
-    return finish(pid, tier, cov, [v for v in violations if v["property"] == "C11"] + extra_viol, assume, t0)
+    # the mask after EVERY operation of every API program (mc/apiseq.py), against the discovered flags of the state
+    from . import apiseq
+    api_cov, api_viol = apiseq.check_part("C11", tier)
+    cov["api_sequence_exploration"] = api_cov
+    return finish(pid, tier, cov, [v for v in violations if v["property"] == "C11"] + extra_viol + api_viol, assume, t0)
 
 
 def replay(pid, rec):
+    if rec.get("engine") == "apiseq":
+        from . import apiseq
+        return apiseq.replay(rec)
     from .sweep import make_ctx
     from .explore import explore
     from .spec import spec_from_json
